@@ -55,7 +55,12 @@ class PackageLoader(BaseLoader):
 
         # Don't build a path that escapes package/package_path.
         # Does ".." appear in template_name?
-        if os.path.pardir in template_path.parts:
+        # Absolute names, and names without a file name, are not templates either.
+        if (
+            template_path.is_absolute()
+            or os.path.pardir in template_path.parts
+            or not template_path.name
+        ):
             raise TemplateNotFoundError(template_name)
 
         # Add suffix self.ext if template name does not have a suffix.
